@@ -54,15 +54,18 @@ type nJob struct {
 	GenCases    int        `json:"gen_cases"`
 	GenTapes    [][]uint32 `json:"gen_tapes"`
 	GenThorough bool       `json:"gen_thorough"`
+	GenKind     string     `json:"gen_kind"` // "" (C02 cases) or "size" (C19)
 }
 
 type genInfo struct {
-	Name   string   `json:"name"`
-	Load   string   `json:"load"`
-	Tape   []uint32 `json:"tape"`
-	Def    string   `json:"definition,omitempty"`
-	Stream string   `json:"stream_type"`
-	NReq   int      `json:"requests"`
+	Name   string        `json:"name"`
+	Load   string        `json:"load"`
+	Tape   []uint32      `json:"tape"`
+	Def    string        `json:"definition,omitempty"`
+	Stream string        `json:"stream_type"`
+	NReq   int           `json:"requests"`
+	Check  string        `json:"load_violation,omitempty"`
+	Size   *sizeCaseInfo `json:"size_info,omitempty"`
 }
 
 type nOut struct {
@@ -317,9 +320,19 @@ func nGenerate(job *nJob) []genInfo {
 			tp = simrt.NewTape(simrt.DeriveSeed(job.GenSeed, 0, i))
 		}
 		name := fmt.Sprintf("g%d", i)
-		tc := genCase(tp, name, job.GenThorough)
-		info := genInfo{Name: name, Tape: tp.Values(), Stream: tc.Request.StreamType.String(), NReq: len(tc.Request.RequestMessages)}
-		info.Load = genLoadCheck(dir, tc, configCases, mode)
+		var tc *conformancev1.TestCase
+		var info genInfo
+		if job.GenKind == "size" {
+			var si *sizeCaseInfo
+			tc, si = genSizeCase(tp, name, job.GenThorough)
+			info = genInfo{Name: name, Stream: tc.Request.StreamType.String(), NReq: len(tc.Request.RequestMessages), Size: si}
+			info.Load, info.Check = sizeLoadCheck(dir, tc, si)
+			info.Tape = tp.Values()
+		} else {
+			tc = genCase(tp, name, job.GenThorough)
+			info = genInfo{Name: name, Tape: tp.Values(), Stream: tc.Request.StreamType.String(), NReq: len(tc.Request.RequestMessages)}
+			info.Load = genLoadCheck(dir, tc, configCases, mode)
+		}
 		if def, err := protojson.Marshal(tc); err == nil && (len(def) < 6000 || info.Load != "ok") {
 			info.Def = string(def)
 			if len(info.Def) > 20000 {
@@ -336,7 +349,13 @@ func nGenerate(job *nJob) []genInfo {
 		tc := genCase(simrt.ReplayTape(nil), "g-empty", false)
 		cases = append(cases, tc)
 	}
-	path, err := genSuiteFile(dir, "Gen", cases)
+	var path string
+	if job.GenKind == "size" {
+		path, err = genSuiteFileFor(dir, &conformancev1.TestSuite{Name: "Gen", Mode: conformancev1.TestSuite_TEST_MODE_SERVER, ReliesOnMessageReceiveLimit: true,
+			RelevantCodecs: []conformancev1.Codec{conformancev1.Codec_CODEC_PROTO}, TestCases: cases})
+	} else {
+		path, err = genSuiteFile(dir, "Gen", cases)
+	}
 	if err != nil {
 		fmt.Fprintln(os.Stderr, err)
 		os.Exit(2)
